@@ -194,6 +194,40 @@ reg('Spring', ['sym'], _est(E.Spring, None, {'embedding_': 'mat'}, dict(n_iter=5
 reg('ForceAtlas', ['sym'], _est(E.ForceAtlas, None, {'embedding_': 'mat'}, dict(n_iter=5),
                                  fit_extra=lambda m, o: {'pos_init': np.array(o['pos_init'], dtype=float)} if o.get('pos_init') else {}),
     cls=E.ForceAtlas, equiv=False, seeds='pos_init')
+# ---- gnn
+def _gnn(m, opts):
+    from sknetwork.gnn import GNNClassifier
+    n = m.shape[0]
+    feats = np.array(opts['features'], dtype=float) if opts.get('features') else np.eye(n)
+    kw = _seed_kwargs('labels', opts)
+    lab = kw.get('labels')
+    if isinstance(lab, dict):
+        arr = -np.ones(n, dtype=int)
+        for k, v in lab.items():
+            arr[k] = v
+        lab = arr
+    lab = np.asarray(lab, dtype=int)
+    n_classes = max(int(lab.max()) + 1, 3)
+    params = dict(dims=[4, n_classes], verbose=False)
+    params.update(opts.get('params', {}))
+    rs = params.pop('random_state', None)
+    holder = opts.get('__holder__')
+    if holder is not None and 'est' in holder:
+        gnn = holder['est']
+    else:
+        gnn = GNNClassifier(**params)
+        if holder is not None:
+            holder['est'] = gnn
+    f0, l0 = feats.copy(), lab.copy()
+    gnn.fit(m, feats, lab, n_epochs=15, random_state=rs, reinit=bool(holder))
+    out = {'labels_': _iv(gnn.labels_), 'embedding_': _mat(gnn.embedding_)}
+    changed = [k for k, a, b in (('features', f0, feats), ('labels', l0, lab)) if not _same(a, b)]
+    if changed:
+        out['__args_modified__'] = ('raw', changed)
+    return out
+
+
+reg('GNNClassifier', ['sym'], _gnn, seeds='labels', equiv=False, seeded='random_state', cls=None, fn=None)
 # ---- link prediction
 reg('NNLinker', ['sq', 'bip'], _est(L.NNLinker, None, {'links_': 'mat'}, dict(n_neighbors=3)), cls=L.NNLinker, equiv=False)
 
@@ -256,10 +290,10 @@ reg('get_cycles', ['sq'], _fn(T.get_cycles, lambda r: {'cycles': ('raw', sorted(
     fn=T.get_cycles, exact=True, equiv=False)
 reg('get_degrees', ['sq', 'bip'], _fn(get_degrees, lambda r: {'d': _iv(r)}), fn=get_degrees, exact=True)
 reg('get_weights', ['sq', 'bip'], _fn(get_weights, lambda r: {'w': _v(r)}), fn=get_weights)
-reg('normalize', ['sq', 'bip'], _fn(normalize, lambda r: {'m': _mat(r)}), fn=normalize)
-reg('get_laplacian', ['sym'], _fn(get_laplacian, lambda r: {'m': _mat(r)}), fn=get_laplacian)
-reg('directed2undirected', ['sq'], _fn(directed2undirected, lambda r: {'m': _mat(r)}), fn=directed2undirected)
-reg('bipartite2undirected', ['bip'], _fn(bipartite2undirected, lambda r: {'m': _mat(r)}), fn=bipartite2undirected)
+reg('normalize', ['sq', 'bip'], _fn(normalize, lambda r: {'m': _mat(r)}), fn=normalize, equiv=False)
+reg('get_laplacian', ['sym'], _fn(get_laplacian, lambda r: {'m': _mat(r)}), fn=get_laplacian, equiv=False)
+reg('directed2undirected', ['sq'], _fn(directed2undirected, lambda r: {'m': _mat(r)}), fn=directed2undirected, equiv=False)
+reg('bipartite2undirected', ['bip'], _fn(bipartite2undirected, lambda r: {'m': _mat(r)}), fn=bipartite2undirected, equiv=False)
 
 
 def _modularity(m, opts):
@@ -292,7 +326,11 @@ def accepts(name):
     through check_format / get_adjacency(_values) (which document every SciPy format and ndarray) and np.ndarray is listed
     in the annotation; 'csr+dense' when ndarray is listed but the body does not convert; else 'csr'."""
     a = ALGOS[name]
-    target = a['cls'].fit if a['cls'] is not None else a['fn']
+    if name == 'GNNClassifier':
+        from sknetwork.gnn import GNNClassifier
+        target = GNNClassifier.fit
+    else:
+        target = a['cls'].fit if a['cls'] is not None else a['fn']
     sig = inspect.signature(target)
     params = [p for p in sig.parameters.values() if p.name != 'self']
     ann = params[0].annotation
@@ -311,7 +349,8 @@ def accepts(name):
 
 def describe(_):
     return {n: dict(kinds=a['kinds'], seeds=a['seeds'], equiv=a['equiv'], deterministic=a['deterministic'],
-                    seeded=a['seeded'], exact=a['exact'], accepts=accepts(n), parallel=a['parallel']) for n, a in ALGOS.items()}
+                    seeded=a['seeded'], exact=a['exact'], accepts=accepts(n), parallel=a['parallel'],
+                    has_force=(n != 'GNNClassifier' and 'force_bipartite' in inspect.signature(a['cls'].fit if a['cls'] is not None else a['fn']).parameters)) for n, a in ALGOS.items()}
 
 
 def run(args):
